@@ -188,7 +188,7 @@ def _a_huge(c):
     import numpy as np
     with np.errstate(all="ignore"):
         q = float(np.float64(m * delta) / np.float64(mx))      # IEEE division (no ZeroDivisionError)
-    return TWO48 * q <= _maxabs(start, stop)
+    return 0.0 < q and TWO48 * q <= _maxabs(start, stop)
 
 
 def _t_huge(c):
@@ -197,7 +197,7 @@ def _t_huge(c):
     with np.errstate(all="ignore"):
         delta = (float(abs(c["num"] - 1)) * mn) * (1.0 - float(np.float64(1.0) / np.float64(sf)))
     q = _pymin(mn, delta)
-    return TWO48 * q <= _maxabs(start, stop)
+    return 0.0 < q and TWO48 * q <= _maxabs(start, stop)
 
 
 def _class_b(case, obs):
